@@ -649,6 +649,12 @@ def r12e(ctx, rule='R12e'):
 
 
 def run(ctx):
+    # "a function of the architecture only": not of which metric of a dictionary specification
+    # was evaluated first -- the memo rule of C04/C05/C06 on the three wrappers
+    from .c06 import memo_rule
+    for wname in ('PIT', 'MPS', 'SuperNet'):
+        memo_rule(ctx, 'R12h', f'{wname}._get_single_cost',
+                  ctx.repo.cls(wname).methods['_get_single_cost'], 1, 2)
     r12a(ctx)
     r12b(ctx)
     r12c(ctx)
